@@ -701,6 +701,7 @@ def run(chk: core.Check) -> int:
         else:
             raise core.HarnessError("Lean driver not built")
         rng = chk.rng
+        same_process_stream(chk, random.Random(chk.seed * 7919 + 20))  # first, with its own generator: independent of the streams below
         n = 520 if chk.quick else 8000
         scenarios = [gen_scenario(rng, i) for i in range(n)]
         # directed stream: the regions of the known findings and the statement's corners, every run
@@ -737,12 +738,16 @@ def run(chk: core.Check) -> int:
         chk.coverage["fixed_corner_scenarios"] = len(cor)
         n1, d1 = evaluate(chk, scenarios, "generated stream")
         n2, d2 = evaluate(chk, directed, "directed stream")
-        same_process_stream(chk, rng)
         n1, d1 = n1 + n0, d1 + d0
         chk.coverage["real_runs"] = n1 + n2
         chk.coverage["real_run_seconds"] = round(time.time() - t0, 1)
         chk.oblige("correspondence: observed exmod effects (audit events, prints, exception, final files) = Exmod.trace on %d runs of %d scenarios" % (n1 + n2, len(scenarios) + len(directed) + len(cor)),
                    "correspondence", d1 + d2 == 0, "%d disagreements" % (d1 + d2))
+    except core.HarnessError as e:
+        # children that do not answer are never a verdict by themselves — but a concrete failing input found before that is one
+        if not chk.violations:
+            raise
+        chk.notes.append("the run was cut short by a harness problem after a failing input had been found: %s" % str(e)[:300])
     finally:
         if private is not None:
             try:
